@@ -73,28 +73,95 @@ func c18(c *Ctx) {
 	diedT := must(p.Named(pkgSup, "processorRequestDied"), "processorRequestDied")
 	schedT := must(p.Named(pkgSup, "processorRequestSchedule"), "processorRequestSchedule")
 	nd := 0
+	// a report site is the allocation of the died request in the goroutine (or its deferred recover
+	// closure), or — when the allocation lives in a local helper closure that neither runs the
+	// service nor recovers — each call of that helper, with the helper's parameter bound to the
+	// argument of the call
+	type deathSite struct {
+		fn   *ssa.Function
+		at   ssa.Instruction
+		errV ssa.Value
+	}
+	runnableCall := func(f *ssa.Function) *ssa.Call {
+		var run *ssa.Call
+		eachInstr(f, func(i ssa.Instruction) {
+			if cl, ok := i.(*ssa.Call); ok && strings.HasPrefix(facts.Term(cl), "dyn:n.runnable(") {
+				run = cl
+			}
+		})
+		return run
+	}
+	callsRecover := func(f *ssa.Function) bool {
+		r := false
+		eachInstr(f, func(i ssa.Instruction) {
+			if cl, ok := i.(*ssa.Call); ok && facts.CalleeName(&cl.Call) == "recover" {
+				r = true
+			}
+		})
+		return r
+	}
+	var allUnder func(f *ssa.Function) []*ssa.Function
+	allUnder = func(f *ssa.Function) []*ssa.Function {
+		out := []*ssa.Function{f}
+		for _, a := range f.AnonFuncs {
+			out = append(out, allUnder(a)...)
+		}
+		return out
+	}
+	var dsites []deathSite
 	for _, s := range allocsOf(p, diedT) {
+		vals, _ := allocStores(s.Instr.(*ssa.Alloc))
+		errV := vals["err"]
+		if top(s.Fn) == sched && s.Fn != sched && runnableCall(s.Fn) == nil && !callsRecover(s.Fn) {
+			var calls []deathSite
+			for _, g := range allUnder(sched) {
+				eachInstr(g, func(i ssa.Instruction) {
+					ci, ok := i.(ssa.CallInstruction)
+					if !ok {
+						return
+					}
+					mc, ok := resolveSpill(ci.Common().Value).(*ssa.MakeClosure)
+					if !ok || mc.Fn != ssa.Value(s.Fn) {
+						return
+					}
+					ev := errV
+					if prm, isP := errV.(*ssa.Parameter); isP {
+						for k, q := range s.Fn.Params {
+							if q == prm && k < len(ci.Common().Args) {
+								ev = ci.Common().Args[k]
+							}
+						}
+					}
+					calls = append(calls, deathSite{g, i, ev})
+				})
+			}
+			if len(calls) > 0 {
+				dsites = append(dsites, calls...)
+				continue
+			}
+		}
+		dsites = append(dsites, deathSite{s.Fn, s.Instr, errV})
+	}
+	for _, s := range dsites {
 		nd++
-		okFn := top(s.Fn) == sched && s.Fn != sched
+		okFn := top(s.fn) == sched && s.fn != sched
 		reason := ""
+		if _, isCall := s.at.(*ssa.Call); !isCall {
+			if _, isAlloc := s.at.(*ssa.Alloc); !isAlloc {
+				okFn, reason = false, "death reported through a deferred or spawned helper call (not decided)"
+			}
+		}
 		if okFn {
 			// either the goroutine body after the runnable call, or the deferred recover closure
-			var run *ssa.Call
-			eachInstr(s.Fn, func(i ssa.Instruction) {
-				if cl, ok := i.(*ssa.Call); ok && strings.HasPrefix(facts.Term(cl), "dyn:n.runnable(") {
-					run = cl
-				}
-			})
-			if run != nil {
-				okFn = facts.Before(s.Instr, func(i ssa.Instruction) bool { return i == run })
-				reason = "allocation is not preceded by the runnable call on every path"
-				vals, _ := allocStores(s.Instr.(*ssa.Alloc))
-				if okFn && termOrNil(vals["err"]) != facts.Term(run) {
-					okFn, reason = false, "reported error is not the runnable's result: "+termOrNil(vals["err"])
+			if run := runnableCall(s.fn); run != nil {
+				okFn = facts.Before(s.at, func(i ssa.Instruction) bool { return i == run })
+				reason = "the report is not preceded by the runnable call on every path"
+				if okFn && termOrNil(s.errV) != facts.Term(run) {
+					okFn, reason = false, "reported error is not the runnable's result: "+termOrNil(s.errV)
 				}
 			} else {
 				// recover closure: must be under rec != nil and be a deferred closure of the goroutine
-				fs := facts.Atoms(facts.At(s.Instr, nil))
+				fs := facts.Atoms(facts.At(s.at, nil))
 				okFn = false
 				for _, a := range fs {
 					if a == "recover() != nil" || a == "nil != recover()" {
@@ -103,10 +170,10 @@ func c18(c *Ctx) {
 				}
 				reason = "death reported from a closure without a recovered panic: " + strings.Join(fs, ";")
 			}
-		} else {
+		} else if reason == "" {
 			reason = "died request created outside processSchedule's goroutine"
 		}
-		R.Check("C18.death-after-return", R.Key("C18.death-after-return", shortFn(s.Fn), "alloc:processorRequestDied"), c.sitePos(p, s), "a death is recorded only after the service function returned (or panicked)", okFn, reason)
+		R.Check("C18.death-after-return", R.Key("C18.death-after-return", shortFn(s.fn), "alloc:processorRequestDied"), c.rel(p.Pos(instrPos(s.at))), "a death is recorded only after the service function returned (or panicked)", okFn, reason)
 	}
 	R.Floor("C18.death-after-return", nd, 2)
 	ns := 0
@@ -502,31 +569,7 @@ func c18(c *Ctx) {
 			if s.Fn != proc {
 				continue
 			}
-			okDirty, wit := facts.MustPassAfter(s.Instr, func(i ssa.Instruction) bool {
-				// the markDirty closure call, or a direct `clean = false`
-				if cl, ok := i.(*ssa.Call); ok {
-					if mc, ok := cl.Call.Value.(*ssa.MakeClosure); ok {
-						dirty := false
-						eachInstr(mc.Fn.(*ssa.Function), func(j ssa.Instruction) {
-							if st, ok := j.(*ssa.Store); ok && isFalseConst(st.Val) {
-								dirty = true
-							}
-						})
-						return dirty
-					}
-				}
-				if st, ok := i.(*ssa.Store); ok && isFalseConst(st.Val) && strings.Contains(facts.Term(st.Addr), "clean") {
-					return true
-				}
-				// the next blocking select of the loop reached without it ends the search
-				return false
-			})
-			_ = wit
-			// MustPassAfter treats "reaches a return" as failure; the processor loop never returns on
-			// this path, so additionally require that the loop header is not reached first
-			if okDirty {
-				okDirty = c18dirtyBeforeNextSelect(s.Instr)
-			}
+			okDirty := c18dirtyOnEveryPath(s.Instr, gc)
 			R.Check("C18.restart-gate", R.Key("C18.restart-gate", shortFn(proc), "dirty-after:"+callee.Name()), c.sitePos(p, s), "after "+callee.Name()+" the restart scan is always marked dirty", okDirty, "a path returns to the processor's select without marking the scan dirty: the exit that makes a subtree restartable may never be acted on")
 		}
 	}
@@ -788,61 +831,181 @@ func c18mapGate(c *Ctx, fn *ssa.Function, name string, states []string) {
 	R.Floor("C18.restart-gate."+name, n, 1)
 }
 
-// c18dirtyBeforeNextSelect: from the instruction after `from`, every path to the next blocking
-// select passes a store of false (directly or inside a called closure).
-func c18dirtyBeforeNextSelect(from ssa.Instruction) bool {
+// c18dirtyOnEveryPath: from the instruction after `from`, every path of the processor loop to its
+// next blocking select has marked the restart scan dirty. The "clean" flag is the value tested by
+// the branch that guards the call of the scan (gc); it lives either in a cell (captured by a
+// closure: dirty = a store of false to that cell, directly or inside a called closure) or in a
+// register (a phi of the loop: dirty = the phi receives false along the path). Paths are walked
+// with the phis evaluated for the edge actually taken, so a flag computed in the request switch
+// and tested after it ("if changed { clean = false }") selects only the branch it can select.
+func c18dirtyOnEveryPath(from ssa.Instruction, gc *ssa.Function) bool {
+	fn := from.Parent()
+	// the flag
+	var cell ssa.Value
+	var reg *ssa.Phi
+	eachInstr(fn, func(i ssa.Instruction) {
+		cl, ok := i.(*ssa.Call)
+		if !ok || cl.Call.StaticCallee() != gc {
+			return
+		}
+		for b := cl.Block(); b != nil; b = b.Idom() {
+			d := b.Idom()
+			if d == nil {
+				break
+			}
+			iff, ok := d.Instrs[len(d.Instrs)-1].(*ssa.If)
+			if !ok {
+				continue
+			}
+			v := iff.Cond
+			if u, ok := v.(*ssa.UnOp); ok && u.Op == token.NOT {
+				v = u.X
+			}
+			switch x := v.(type) {
+			case *ssa.Phi:
+				reg = x
+			case *ssa.UnOp:
+				if x.Op == token.MUL {
+					cell = x.X
+				}
+			}
+			break
+		}
+	})
+	if cell == nil && reg == nil {
+		return false
+	}
+	sameCell := func(addr ssa.Value) bool {
+		if addr == cell {
+			return true
+		}
+		if fv, ok := addr.(*ssa.FreeVar); ok {
+			if a := cellOfFreeVar(fv, 0); a != nil && ssa.Value(a) == cell {
+				return true
+			}
+		}
+		return false
+	}
 	isDirty := func(i ssa.Instruction) bool {
+		if cell == nil {
+			return false
+		}
 		if cl, ok := i.(*ssa.Call); ok {
-			if mc, ok := cl.Call.Value.(*ssa.MakeClosure); ok {
+			if mc, ok := resolveSpill(cl.Call.Value).(*ssa.MakeClosure); ok {
 				d := false
 				eachInstr(mc.Fn.(*ssa.Function), func(j ssa.Instruction) {
-					if st, ok := j.(*ssa.Store); ok && isFalseConst(st.Val) {
+					if st, ok := j.(*ssa.Store); ok && isFalseConst(st.Val) && sameCell(st.Addr) {
 						d = true
 					}
 				})
 				return d
 			}
 		}
-		if st, ok := i.(*ssa.Store); ok && isFalseConst(st.Val) {
-			return true
-		}
-		return false
+		st, ok := i.(*ssa.Store)
+		return ok && isFalseConst(st.Val) && sameCell(st.Addr)
 	}
-	b := from.Block()
-	idx := 0
-	for k, ins := range b.Instrs {
-		if ins == from {
-			idx = k
+	type env map[*ssa.Phi]ssa.Value
+	var resolve func(e env, v ssa.Value) ssa.Value
+	resolve = func(e env, v ssa.Value) ssa.Value {
+		if ph, ok := v.(*ssa.Phi); ok {
+			if r, ok := e[ph]; ok {
+				return r
+			}
 		}
+		return v
 	}
-	seen := map[*ssa.BasicBlock]bool{}
-	var walk func(b *ssa.BasicBlock, start int) bool
-	walk = func(b *ssa.BasicBlock, start int) bool {
+	boolOf := func(e env, v ssa.Value) (val, known bool) {
+		neg := false
+		for {
+			if u, ok := v.(*ssa.UnOp); ok && u.Op == token.NOT {
+				neg = !neg
+				v = u.X
+				continue
+			}
+			break
+		}
+		v = resolve(e, v)
+		if c, ok := v.(*ssa.Const); ok && c.Value != nil && c.Value.Kind() == constant.Bool {
+			return constant.BoolVal(c.Value) != neg, true
+		}
+		return false, false
+	}
+	steps := 0
+	var walk func(b *ssa.BasicBlock, start int, e env, dirty bool, depth int) bool
+	walk = func(b *ssa.BasicBlock, start int, e env, dirty bool, depth int) bool {
+		steps++
+		if depth > 64 || steps > 20000 {
+			return false // not decided
+		}
 		for k := start; k < len(b.Instrs); k++ {
-			if isDirty(b.Instrs[k]) {
-				return true
+			ins := b.Instrs[k]
+			if isDirty(ins) {
+				dirty = true
 			}
-			if sel, ok := b.Instrs[k].(*ssa.Select); ok && sel.Blocking {
-				return false
+			if sel, ok := ins.(*ssa.Select); ok && sel.Blocking {
+				if reg != nil {
+					v, known := boolOf(e, reg)
+					return known && !v
+				}
+				return dirty
 			}
-			if _, ok := b.Instrs[k].(*ssa.Return); ok {
+			switch ins.(type) {
+			case *ssa.Return, *ssa.Panic:
 				return true // leaving the processor ends all restarts anyway
 			}
 		}
-		if seen[b] && start == 0 {
-			return true
+		succs := []int{}
+		if iff, ok := b.Instrs[len(b.Instrs)-1].(*ssa.If); ok {
+			if v, known := boolOf(e, iff.Cond); known {
+				if v {
+					succs = []int{0}
+				} else {
+					succs = []int{1}
+				}
+			}
 		}
-		if start == 0 {
-			seen[b] = true
+		if len(succs) == 0 {
+			for k := range b.Succs {
+				succs = append(succs, k)
+			}
 		}
-		for _, s := range b.Succs {
-			if !walk(s, 0) {
+		for _, k := range succs {
+			nb := b.Succs[k]
+			pi := -1
+			for q, pr := range nb.Preds {
+				if pr == b {
+					pi = q
+				}
+			}
+			ne := env{}
+			for a, v := range e {
+				ne[a] = v
+			}
+			for _, ins := range nb.Instrs {
+				ph, ok := ins.(*ssa.Phi)
+				if !ok {
+					break
+				}
+				if pi >= 0 {
+					ne[ph] = resolve(e, ph.Edges[pi])
+				}
+			}
+			if !walk(nb, 0, ne, dirty, depth+1) {
 				return false
 			}
 		}
 		return true
 	}
-	return walk(b, idx+1)
+	return walk(from.Block(), instrIndexOf(from)+1, env{}, false, 0)
+}
+
+func instrIndexOf(i ssa.Instruction) int {
+	for k, x := range i.Block().Instrs {
+		if x == i {
+			return k
+		}
+	}
+	return -1
 }
 
 // c18rangedMap: the map whose range statement produces v (through next/extract/calls), or nil.
